@@ -30,6 +30,7 @@ import (
 	prof_transpiler "github.com/metrico/qryn/reader/prof/transpiler"
 	v1 "github.com/metrico/qryn/reader/prof/types/v1"
 	traceql_parser "github.com/metrico/qryn/reader/traceql/parser"
+	"github.com/metrico/qryn/reader/service"
 	traceql_transpiler "github.com/metrico/qryn/reader/traceql/transpiler"
 	"github.com/metrico/qryn/reader/utils/dbVersion"
 	sql "github.com/metrico/qryn/reader/utils/sql_select"
@@ -45,6 +46,15 @@ type querySpec struct {
 	Log   *refeval.Expr     `json:"log,omitempty"`
 	Trace *refeval.TQScript `json:"trace,omitempty"`
 	Prof  *profSpec         `json:"prof,omitempty"`
+	// Lookup: Kind "tracetags" (TraceQL tag names / values v2; Trace is the optional selector)
+	// and Kind "labels" (label names / values of QueryLabelsService).
+	Lookup *lookupSpec `json:"lookup,omitempty"`
+}
+
+type lookupSpec struct {
+	Fn    string   `json:"fn"` // tags | values | labels
+	Key   string   `json:"key,omitempty"`
+	Match []string `json:"match,omitempty"`
 }
 
 // profSpec: which profile planner and its selector.
@@ -62,6 +72,12 @@ func (q querySpec) Text() string {
 		return q.Trace.String()
 	case "prof":
 		return q.Prof.Fn + " " + q.Prof.Selector
+	case "tracetags", "labels":
+		t := q.Kind + " " + q.Lookup.Fn + " " + q.Lookup.Key + " " + strings.Join(q.Lookup.Match, ",")
+		if q.Trace != nil {
+			t += " " + q.Trace.String()
+		}
+		return t
 	}
 	return "?"
 }
@@ -176,6 +192,52 @@ func (t *tracePlan) run(p execParams) ([]string, error) {
 	return rec.take(), nil
 }
 
+// ---- TraceQL tag names / values ---------------------------------------------------------------
+
+type tagsPlan struct {
+	proc shared.GenericTraceRequestProcessor[string]
+}
+
+func (t *tagsPlan) run(p execParams) ([]string, error) {
+	rec := &recorder{}
+	pc, fdb := newCtx(p, rec)
+	defer fdb.Close()
+	defer pc.CancelCtx()
+	out, err := t.proc.Process(pc)
+	if err != nil {
+		return rec.take(), err
+	}
+	for range out {
+	}
+	return rec.take(), nil
+}
+
+// ---- label names / values (QueryLabelsService) -----------------------------------------------
+
+type labelsPlan struct {
+	l *lookupSpec
+}
+
+func (lp *labelsPlan) run(p execParams) ([]string, error) {
+	rec := &recorder{}
+	fdb := fakesql.New(rec.handle)
+	defer fdb.Close()
+	svc := service.NewQueryLabelsService(&model.ServiceData{Session: fdb.Registry(&config.ClokiBaseDataBase{ClusterName: p.Cluster, Name: p.DB})})
+	var out chan string
+	var err error
+	if lp.l.Fn == "labels" {
+		out, err = svc.Labels(context.Background(), p.FromNs/1e6, p.ToNs/1e6, 1)
+	} else {
+		out, err = svc.Values(context.Background(), lp.l.Key, lp.l.Match, p.FromNs/1e6, p.ToNs/1e6, 1)
+	}
+	if err != nil {
+		return rec.take(), err
+	}
+	for range out {
+	}
+	return rec.take(), nil
+}
+
 // ---- profiles -----------------------------------------------------------------------------
 
 type profPlan struct {
@@ -226,6 +288,26 @@ func prepare(q querySpec) (pl prepared, err error) {
 			return nil, err
 		}
 		return &tracePlan{proc}, nil
+	case "tracetags":
+		var script *traceql_parser.TraceQLScript
+		if q.Trace != nil {
+			script, err = traceql_parser.Parse(q.Trace.String())
+			if err != nil {
+				return nil, err
+			}
+		}
+		var proc shared.GenericTraceRequestProcessor[string]
+		if q.Lookup.Fn == "tags" {
+			proc, err = traceql_transpiler.PlanTagsV2(script)
+		} else {
+			proc, err = traceql_transpiler.PlanValuesV2(script, q.Lookup.Key)
+		}
+		if err != nil {
+			return nil, err
+		}
+		return &tagsPlan{proc}, nil
+	case "labels":
+		return &labelsPlan{q.Lookup}, nil
 	case "prof":
 		script, err := prof_parser.Parse(q.Prof.Selector)
 		if err != nil {
